@@ -46,7 +46,9 @@ CNext == /\ l <= Len(T.ev) /\ l' = l + 1 /\ UNCHANGED <<tid, crashes, faults, pr
               /\ loc[e.p].pc \notin Final
               /\ \/ /\ e.a = "crash"
                     /\ LET r == CrashEff(e.p) IN sh' = r.s /\ loc' = [loc EXCEPT ![e.p] = r.l]
-                 \/ /\ e.a # "crash" /\ Gate(loc[e.p].pc) = e.a
+                 \/ /\ e.a = "cancel" /\ loc[e.p].pc \in Awaiting
+                    /\ LET r == CancelEff(e.p) IN sh' = r.s /\ loc' = [loc EXCEPT ![e.p] = r.l]
+                 \/ /\ e.a \notin {"crash", "cancel"} /\ Gate(loc[e.p].pc) = e.a
                     /\ CanStep(e.p) /\ e.c \in ChoiceSet(e.p)
                     /\ (e.f => loc[e.p].pc \in Faultable)
                     /\ LET r == Eff(e.p, e.c, e.f) IN sh' = r.s /\ loc' = [loc EXCEPT ![e.p] = r.l]
